@@ -226,7 +226,11 @@ impl Literal {
                 false
             }
             (Literal::Range(min, max, num_ty), Type::Array(elem_ty, size)) => {
-                elem_ty.as_ref() == &Type::Unsigned(*num_ty) && max - min == *size as u64
+                // `min..max` must consist of exactly `size` numbers that are representable:
+                elem_ty.as_ref() == &Type::Unsigned(*num_ty)
+                    && min <= max
+                    && max - min == *size as u64
+                    && (min == max || num_ty.max().is_none_or(|ty_max| max - 1 <= ty_max))
             }
             _ => false,
         }
